@@ -237,6 +237,41 @@ pub fn codec(r: &mut Rng, n: u64, thorough: bool, out: &mut Out) {
             out.line(&format!("codec {} {}", case, run_dec(&bytes)));
             case += 1;
         }
+        // hand-written bytes: neighbouring strings that are not UTF-8 one by one although their bytes, joined, are (a character
+        // cut between two path segments / two doc lines), and the whole character in one string for comparison
+        for ch in ["\u{e9}", "\u{20ac}", "\u{1f600}", "a\u{e9}b"] {
+            let b = ch.as_bytes();
+            for k in 0..=b.len() {
+                let strs = |v: &mut Vec<u8>| {
+                    if k == 0 || k == b.len() {
+                        v.extend(compact(1));
+                        v.extend(compact(b.len() as u32));
+                        v.extend_from_slice(b);
+                    } else {
+                        v.extend(compact(2));
+                        v.extend(compact(k as u32));
+                        v.extend_from_slice(&b[..k]);
+                        v.extend(compact((b.len() - k) as u32));
+                        v.extend_from_slice(&b[k..]);
+                    }
+                };
+                // one entry, id 0: path, no parameters, primitive u8, docs
+                let mut in_path = vec![];
+                in_path.extend(compact(1));
+                in_path.extend(compact(0));
+                strs(&mut in_path);
+                in_path.extend([0u8, 5, 3, 0]);
+                let mut in_docs = vec![];
+                in_docs.extend(compact(1));
+                in_docs.extend(compact(0));
+                in_docs.extend([0u8, 0, 5, 3]);
+                strs(&mut in_docs);
+                for bytes in [in_path, in_docs] {
+                    out.line(&format!("codec {} {}", case, run_dec(&bytes)));
+                    case += 1;
+                }
+            }
+        }
         // list lengths at the 2-byte / 4-byte compact boundary (cheap elements)
         for len in [16383usize, 16384] {
             let tup = TypeDefTuple::new_portable((0..len).map(|k| ((k % 3) as u32).into()).collect::<Vec<_>>());
